@@ -230,8 +230,11 @@ def make_unit(iset, cube_name, cube_pred, memarch='PMSA', nregions=1, props=('C1
             dprop = 'C06' if iset == 'arm' else 'C07'
             want = 'arm' if iset == 'arm' else ('t16' if iset == 'thumb16' else 't32')
             rows = [r for r in rows if r.iset == want]
-            ob = eng.oblige('decode.class', '%s: the word belongs to the architectural encoding of the selected class' % tag,
-                            lor(*[r.match(instr) for r in rows]) if rows else False)
+            belongs = lor(*[r.match(instr) for r in rows]) if rows else False
+            if not eng.prove(sym.zb(belongs)):
+                # words the architecture makes UNPREDICTABLE (under whichever encoding claims them) may decode as anything
+                belongs = lor(belongs, table_unpredictable(iset, instr, oplen, init))
+            ob = eng.oblige('decode.class', '%s: the word belongs to the architectural encoding of the selected class' % tag, belongs)
             ob.props = [dprop]
             def fix(name, w, v):
                 # small decoded fields that the path condition already determines are handed to the spec as constants
@@ -281,6 +284,23 @@ def make_unit(iset, cube_name, cube_pred, memarch='PMSA', nregions=1, props=('C1
                 ob = eng.oblige('post.unpred', '%s: not executed normally where the architecture says UNDEFINED' % tag,
                                 lor(lnot(r.match(instr)), lnot(s_undef)))
                 ob.props = [dprop]
+        # ---- decode totality: a word taken as UNDEFINED (no opcode object built) is not a valid, predictable encoding
+        # of any row of the table
+        if kname == 'none' and took == ['take_undef_instr_exception'] and 'fetch-abort' not in events:
+            import z3
+            from spec.cpu import Cpu
+            dprop = 'C06' if iset == 'arm' else 'C07'
+            want = 'arm' if iset == 'arm' else ('t16' if iset == 'thumb16' else 't32')
+            base = Cpu(dict(init), 'arm' if iset == 'arm' else 'thumb', instr, oplen)
+            claims = []
+            for r, mt in live_rows(iset, instr):
+                f = r.extract(instr)
+                unp = lor(r.sbz_violated(instr), r.unpred(f, base) if r.unpred is not None else False)
+                und = r.undef(f, base) if r.undef is not None else False
+                claims.append((r.cls, lnot(land(mt, lnot(unp), lnot(und)))))
+            if claims:
+                ob = eng.oblige_all('decode.total', 'undefined: the word is no valid (predictable, defined) encoding of the table', claims)
+                ob.props = [dprop]
         # ---- abort clause (C02/C14): a data abort raised by the instruction's own access leaves the registers as
         # they were (no data transferred, no base write-back) and enters the abort handler architecturally
         if rows and events == ['take_data_abort_exception'] and mem.fault_info is not None and not unpred_possible(unpred):
@@ -311,6 +331,30 @@ def make_unit(iset, cube_name, cube_pred, memarch='PMSA', nregions=1, props=('C1
     return Unit(uid, list(props), symbolic, replay,
                 {'contracts': {}, 'merge_calls': merge_set(), 'max_paths': 60000},
                 meta={'cube': cube_name, 'iset': iset})
+
+
+def live_rows(iset, instr):
+    """rows of the instruction set whose fixed bits are not syntactically excluded by the cube"""
+    import z3
+    want = 'arm' if iset == 'arm' else ('t16' if iset == 'thumb16' else 't32')
+    for r in ENC.TABLE.rows:
+        if r.iset != want:
+            continue
+        mt = r.match(instr)
+        if mt is False or (sym.is_sym(mt) and z3.is_false(z3.simplify(sym.zb(mt)))):
+            continue
+        yield r, mt
+
+
+def table_unpredictable(iset, instr, oplen, init):
+    """some row of the table matches the word and declares it UNPREDICTABLE (should-be bits, operand restrictions)"""
+    from spec.cpu import Cpu
+    base = Cpu(dict(init), 'arm' if iset == 'arm' else 'thumb', instr, oplen)
+    out = []
+    for r, mt in live_rows(iset, instr):
+        f = r.extract(instr)
+        out.append(land(mt, lor(r.sbz_violated(instr), r.unpred(f, base) if r.unpred is not None else False)))
+    return lor(*out) if out else False
 
 
 def unpred_possible(u):
